@@ -51,6 +51,7 @@ class World:
         self.trace = []            # entries of the current step
         self.handlers = {}         # sid -> future of a waiting slow handler
         self.nstart = 0
+        self.refused = set()       # names of the peers to which the transport currently refuses to send
         world = self
         simnet.patch_random(uniform_value=inp["uniform"] / 1e6, mid0=inp["mid0"], token0=0)
 
@@ -63,7 +64,10 @@ class World:
                 return await super().render_to_pipe(pipe)
 
         class R(resource.Resource):
-            def __init__(self, kind): super().__init__(); self.kind = kind
+            def __init__(self, kind):
+                super().__init__(); self.kind = kind
+                # "cached": ONE response object built once and returned for every request (oracle-only stream, finding C04-R5-1)
+                self.cached = aiocoap.Message(code=aiocoap.CONTENT, payload=b"cached") if kind == "cached" else None
             async def needs_blockwise_assembly(self, request): return False
             async def handle(self, request):
                 # the Site hands a path-stripped copy to the resource; recover the invocation number from the log
@@ -71,6 +75,7 @@ class World:
                 k = self.kind
                 body = bytes([sid % 256]) + request.payload
                 if k == "fast": return aiocoap.Message(code=aiocoap.CONTENT, payload=body)
+                if k == "cached": return self.cached
                 if k == "fail": raise RuntimeError("handler failed")
                 if k == "suppress": return aiocoap.Message(code=aiocoap.CHANGED, payload=body, no_response=26)
                 if k == "badreq": return aiocoap.Message(code=aiocoap.BAD_REQUEST, payload=body)
@@ -89,7 +94,7 @@ class World:
             render_get = render_post = render_put = render_delete = render_fetch = render_patch = render_ipatch = handle
 
         site = LoggingSite()
-        for p in PATHS:
+        for p in PATHS + ["cached"]:
             if p != "missing": site.add_resource([p], R(p))
         self.ctx, self.tman, self.mman, mi = simnet.make_stack(loop, site)
         self.remotes = {}
@@ -97,12 +102,16 @@ class World:
         def send(m):
             raw = m.encode()
             world.trace.append(["send", loop.now_us(), m.remote.name, raw.hex()])
+            if m.remote.name in world.refused:
+                # the udp6 pattern: sendmsg fails, the error is reported from inside send()
+                world.trace.append(["refused", loop.now_us(), m.remote.name])
+                world.mman.dispatch_error(OSError(101, "Network is unreachable"), m.remote)
         mi.send = send
         self.simnet = simnet
 
     def remote(self, i):
-        if i not in self.remotes: self.remotes[i] = self.simnet.Addr("p%d" % i)
-        return self.remotes[i]
+        # a new address object per datagram: keys must work by __eq__/__hash__, not by object identity
+        return self.simnet.Addr("p%d" % i)
 
     def step(self, ev):
         loop = self.loop; nexc = len(loop.exceptions)
@@ -122,6 +131,18 @@ class World:
                 f = self.handlers.get(ev[1])
                 if f is not None and not f.done():
                     f.set_result(["raise", ev[2]]); loop.drain()
+            elif kind == "recvmany":
+                # several datagrams read in ONE loop turn: all dispatched before any rendering task runs (oracle-only stream "race")
+                import aiocoap
+                with loop.enter():
+                    for e in ev[1]:
+                        self.mman.dispatch_message(aiocoap.Message.decode(encode_request(e), self.remote(e[1])))
+                loop.drain()
+            elif kind == "refuse":
+                (self.refused.add if ev[2] else self.refused.discard)("p%d" % ev[1])
+            elif kind == "neterr":
+                with loop.enter(): self.mman.dispatch_error(OSError(113, "No route to host"), self.remote(ev[1]))
+                loop.drain()
             else:
                 raise ValueError("unknown event %r" % (ev,))
         except Exception as e:
@@ -172,6 +193,8 @@ def g_event(ev):
         return ("Respond %d {| a_code := %d; a_payload := %s; a_nr := %s; a_rel := %s |}"
                 % (sid, code, g_bytes(pay), gopt(nr, gz), gopt(rel, gbool)))
     if k == "raise": return "RaiseIn %d %s" % (ev[1], "ENotFound" if ev[2] == "NotFound" else "ERuntime")
+    if k == "refuse": return "Refuse %d %s" % (ev[1], gbool(ev[2]))
+    if k == "neterr": return "NetError %d" % ev[1]
     raise ValueError(ev)
 
 def decode_observe(p, inp):
@@ -181,6 +204,7 @@ def decode_observe(p, inp):
     for o in outs:
         if o[0] == 0: entries.append(["send", o[1], "p%d" % o[2], bytes(o[3:]).hex()])
         elif o[0] == 1: entries.append(["start", o[1], o[2], "p%d" % o[3], o[4], bytes(o[5:]).hex()])
+        elif o[0] == 3: entries.append(["refused", o[1], "p%d" % o[2]])
         else: entries.append(["exn", ["AssertionError", "KeyError"][o[2]]])
     steps, prev = [], 0
     for (t, n) in scan:
@@ -280,6 +304,102 @@ def gen_scenario(rng):
     return g.inp()
 
 
+def gen_refusal(rng):
+    """a scenario script with the transport refusing / accepting datagrams to single peers (error reported from inside send())
+    and asynchronous transport errors (ICMP-style dispatch_error) inserted at random places"""
+    if rng.random() < 0.45: return gen_refusal_targeted(rng)
+    inp = gen_scenario(rng); ev = inp["events"]
+    for _ in range(rng.randint(1, 4)):
+        pos = rng.randrange(0, len(ev) + 1)
+        x = rng.random()
+        if x < 0.45: e = ["refuse", rng.choice([0, 0, 0, 1, 2]), True]
+        elif x < 0.7: e = ["refuse", rng.choice([0, 0, 1]), False]
+        else: e = ["neterr", rng.choice([0, 0, 1, 2])]
+        ev.insert(pos, e)
+    return inp
+
+
+def gen_refusal_targeted(rng):
+    """the two situations of the fixes 11456f9 / 8d04b7c: the transport starts refusing a peer while a CON separate response to it
+    is being retransmitted, or while a second CON response waits in the NSTART backlog and is released by the peer's ACK/RST;
+    copies of the requests before, in between and after; the refusal may end again"""
+    mid = rng.randrange(65536); g = Gen(rng, mid0=rng.choice([mid, rng.randrange(65536)]))
+    a = g.recv(0, "CON", mid, "0a", "slow", None, g.payload())
+    two = rng.random() < 0.6
+    b = g.recv(0, "CON", mid + 1, "0b", "slow", None, g.payload()) if two else None
+    def copies():
+        for e in (a, b):
+            if e is not None and rng.random() < 0.6: g.again(e)
+    g.adv(EMPTY_ACK); copies()
+    g.respond(0, code=69, nr=None, rel=rng.choice([None, True]))           # CON separate response, own mid = mid0
+    if two: g.respond(1, code=69, nr=None, rel=rng.choice([None, True]))   # waits in the backlog behind it
+    copies()
+    if rng.random() < 0.3: g.adv(rng.choice([g.uniform, g.uniform + 1, 1000000]))
+    g.ev.append(["refuse", 0, True])
+    if rng.random() < 0.25: copies()     # (a refused copy's reply already ends the remote's exchanges and backlog)
+    for _ in range(rng.randint(1, 3)):
+        x = rng.random()
+        if x < 0.45: g.peer_ack(0, g.mid0, rng.choice(["ACK", "RST"]))          # releases the backlog into the refusing transport
+        elif x < 0.9: g.adv(rng.choice([g.uniform, 2 * g.uniform, 3 * g.uniform, 10000000]))   # a retransmission is refused
+        else: g.ev.append(["neterr", 0])
+        if rng.random() < 0.5: copies()
+    if rng.random() < 0.7: g.ev.append(["refuse", 0, False])
+    # afterwards: timers that may have been resurrected, late ACKs, new requests, copies
+    for _ in range(rng.randint(1, 4)):
+        x = rng.random()
+        if x < 0.35: g.adv(rng.choice([2 * g.uniform, 4 * g.uniform, 30000000, 100000000]))
+        elif x < 0.6: g.peer_ack(0, g.mid0 + rng.randrange(0, 2))
+        elif x < 0.8:
+            e = g.recv(0, "CON", mid + 2 + rng.randrange(3), g.token(), rng.choice(["rel", "fast", "slow"]), None, "")
+            if rng.random() < 0.5: g.again(e)
+        else: g.fire()
+        copies()
+    return g.inp()
+
+
+def gen_burst(rng):
+    """many copies in a row (10, 50 or 200) at one stage of the life of a CON request"""
+    mid = rng.randrange(65536); g = Gen(rng, mid0=mid)
+    kind = rng.choice(["fast", "slow", "slow", "suppress", "fail"])
+    first = g.recv(0, "CON", mid, g.token(), kind, None, g.payload())
+    n = rng.choice([10, 10, 50, 50, 200])
+    stage = rng.choice(["immediately", "empty-ack", "separate", "boundary"])
+    if stage != "immediately": g.adv(EMPTY_ACK)
+    if stage in ("separate", "boundary") and kind == "slow": g.respond(0)
+    if stage == "boundary": g.adv(LIFETIME - EMPTY_ACK - 1)
+    for i in range(n):
+        g.again(first)
+        if i == n // 2 and stage == "boundary": g.adv(1)
+    return g.inp()
+
+
+def gen_race(rng):
+    """ORACLE-ONLY: the original and copies of it (and other requests) are read in one loop turn, before the handler task starts"""
+    g = Gen(rng); mid = rng.randrange(65536)
+    kind = rng.choice(["fast", "fast", "slow", "fail", "suppress"])
+    first = ["recv", 0, rng.choice(["CON", "CON", "NON"]), 1, mid, "01", kind, None, ""]
+    batch = [first] + [list(first) for _ in range(rng.randint(1, 4))]
+    if rng.random() < 0.5: batch.insert(rng.randrange(1, len(batch) + 1), ["recv", 1, "CON", 1, mid, "02", "fast", None, ""])
+    g.ev.append(["recvmany", batch])
+    g.again(first)
+    if rng.random() < 0.5: g.adv(EMPTY_ACK); g.again(first)
+    if rng.random() < 0.5: g.ev.append(["recvmany", [list(first), list(first)]])
+    g.adv(LIFETIME); g.ev.append(["recvmany", [list(first), list(first)]])
+    return g.inp()
+
+
+def gen_cached(rng):
+    """ORACLE-ONLY (no model term): the resource hands the SAME response object to every request (finding C04-R5-1)"""
+    g = Gen(rng)
+    mid = rng.randrange(65536)
+    first = g.recv(0, "CON", mid, "01", "cached")
+    if rng.random() < 0.5: g.again(first)
+    g.recv(rng.choice([0, 1]), "CON", rng.choice([mid, mid + 1]), "02", "cached") if True else None
+    if g.ev[-1] == first: g.ev[-1][4] = (mid + 1) & 0xFFFF
+    g.again(first)
+    return g.inp()
+
+
 def gen_random(rng, adversarial=False):
     g = Gen(rng)
     mids = [rng.randrange(65536) for _ in range(2)] + [g.mid0, (g.mid0 + 1) & 0xFFFF]
@@ -360,26 +480,40 @@ class C04(fw.Property):
     level_text = ("Theorems (closed under the global context) over Model/C04.v for every reachable state and every event list: a request key "
                   "(remote, mid) is handed to the application at most once per EXCHANGE_LIFETIME; a further copy inside the lifetime yields exactly "
                   "the last ACK/RST sent under that key since the first arrival (CON) or nothing (NON, or no ACK yet), changes no state and never "
-                  "raises; the key is forgotten exactly when its expiry timer fires at first arrival + EXCHANGE_LIFETIME and the next copy is executed; "
+                  "raises; copies neither extend nor shorten the lifetime: the key is forgotten exactly when the expiry timer armed at the first arrival fires "
+                  "(first arrival + EXCHANGE_LIFETIME) and the next copy is executed; a key that did not arrive stays unknown whatever other endpoints do; "
                   "other remotes' use of the same mid is independent; the repeated reply is an ACK unless the peer reused the live message ID for a "
                   "confirmable non-request. The model is tied to the code by running both on the same event scripts.")
     level_note = ("Hand-written model (no translated kernel): trusted through the correspondence streams only. Not modelled: multicast, shutdown, "
                   "outgoing client requests, observe, block-wise, non-default TransportTuning of incoming messages, continuation after an internal "
-                  "exception (KeyError/AssertionError branches are modelled as outputs and are unreachable in every run). A peer that reuses a live "
+                  "exception (KeyError/AssertionError branches are modelled as outputs and are unreachable in every run; no theorem excludes them), object "
+                  "identity of the handler's response (open finding: the remembered reply is the mutable object, not a snapshot). A peer that reuses a live "
                   "message ID for a ping or an unmatched CON response makes the remembered reply an RST (C04_impolite_peer_gets_rst); "
                   "C04_dup_reply_is_ack carries that side condition explicitly.")
     rule = ("streams: scenario = one request (fast/slow/failing/missing/No-Response/forced CON or NON response; CON or NON) followed through its life with "
             "copies injected before completion, inside EMPTY_ACK_DELAY, after the empty ACK, after the separate response, after the peer's ACK/RST, and at "
             "EXCHANGE_LIFETIME-1/0/+1 us, 1-3 peers reusing the mid, own mid counter aligned with the peer's mids; lifetime = keys inserted at one instant, "
             "expiry by advance / split advance / single timer firings, copies at the boundary; random = event soup over small pools of mids, tokens, peers; "
-            "adversarial = the same with pings, responses, ACK/RST-typed requests, reserved codes and token reuse colliding with live mids. "
+            "adversarial = the same with pings, responses, ACK/RST-typed requests, reserved codes and token reuse colliding with live mids; "
+            "refusal = scenario scripts with the transport refusing datagrams to single peers from inside send() and asynchronous transport errors "
+            "(MessageManager.dispatch_error) at random places; burst = 10/50/200 copies in a row at one stage; cached (oracle only, no model term) = a "
+            "resource returning one response object for every request (open finding). Per 20 cases: 8 scenario, 3 lifetime, 3 random, 2 adversarial, "
+            "3 refusal, 1 burst / cached / race (race, oracle only: original and copies dispatched in one loop turn before the handler task starts). "
             "thorough adds enum = every script of length <= 3 over 7 symbols and of length 4 over 5 symbols (1024 scripts) on one key. "
             "Non-trivial = at least one copy of a CON request was re-answered and at least one request reached the site; distinct by full script.")
-    trusted_base = ["hand-written Model/C04.v (validated by the four correspondence streams on every run: full output log with timestamps, "
+    trusted_base = ["hand-written Model/C04.v (validated by the six modelled correspondence streams on every run: full output log with timestamps, "
                     "per-event cut, final _recent_messages / timers / piggy-back / exchange / backlog / incoming tables)",
                     "harness: virtual-time loop simloop.VLoop (ideal timer service), fake transport simnet.FakeMI/Addr, scripted random",
                     "the plugin's own 15-line CoAP header/option encoder used to build the injected datagrams (outputs are rendered by Model/C04.wire_bytes)"]
-    assumptions = ["timers fire at their due time in (due, creation) order (ideal loop); real-loop jitter is not modelled",
+    assumptions = ["model and theorems: each datagram is processed until the loop is idle before the next one is read; several datagrams per loop "
+                   "turn (a copy dispatched before the render task of the original has run gets nothing: entry still None) are exercised on the "
+                   "implementation only (oracle-only stream 'race')",
+                   "'sent' = handed to message_interface.send; a refusing transport reports from inside send() (udp6 pattern) or later through "
+                   "dispatch_error, both modelled; a send() that raises (unencodable response: open finding of C09) is not",
+                   "handlers build a fresh Message per request in every modelled stream; the reuse of one response object is the oracle-only "
+                   "stream 'cached' (open finding, fixes/C04-stored-reply-snapshot.diff)",
+                   "source endpoint equality is EndpointAddress.__eq__/__hash__ of the stub simnet.Addr (a new object per datagram)",
+                   "timers fire at their due time in (due, creation) order (ideal loop); real-loop jitter is not modelled",
                    "default TransportTuning (EXCHANGE_LIFETIME 247 s, EMPTY_ACK_DELAY 0.1 s, MAX_RETRANSMIT 4) on incoming messages"]
 
     def setup(self):
@@ -392,11 +526,13 @@ class C04(fw.Property):
 
     def gen_cases(self, tier, rng, n):
         for k in range(n):
-            x = k % 10
-            if x < 5: yield "scenario", gen_scenario(rng)
-            elif x < 7: yield "lifetime", gen_lifetime(rng)
-            elif x < 9: yield "random", gen_random(rng)
-            else: yield "adversarial", gen_random(rng, adversarial=True)
+            x = k % 20
+            if x < 8: yield "scenario", gen_scenario(rng)
+            elif x < 11: yield "lifetime", gen_lifetime(rng)
+            elif x < 14: yield "random", gen_random(rng)
+            elif x < 16: yield "adversarial", gen_random(rng, adversarial=True)
+            elif x < 19: yield "refusal", gen_refusal(rng)
+            else: yield [("burst", gen_burst(rng)), ("cached", gen_cached(rng)), ("burst", gen_burst(rng)), ("race", gen_race(rng))][(k // 20) % 4]
         if tier == "thorough":
             # exhaustive small scope (validation of the tie, not a proof): every script of length <= 3 over 7 symbols and of
             # length 4 over 5 symbols; one key of peer 0 (slow and fast copy), the same mid from peer 1, the two clock
@@ -414,6 +550,7 @@ class C04(fw.Property):
         return run_impl(inp)
 
     def model(self, stream, inp):
+        if stream in ("cached", "race"): return None   # object identity of the response / several datagrams per loop turn are not modelled: oracle only
         return "observe (init %s %s) %s" % (gz(inp["mid0"]), gz(inp["uniform"]), glist([g_event(e) for e in inp["events"]]))
 
     def decode(self, stream, inp, parsed):
@@ -421,13 +558,43 @@ class C04(fw.Property):
 
     # ------------------------------------------------------------------ oracle: RFC 7252 4.5 on the wire and the handler log
     def oracle(self, stream, inp, res):
+        o = self._oracle(stream, inp, res)
+        if o is not None and stream == "cached" and o[0] in ("C04:dup-answer-differs", "C04:dup-extra-output"):
+            # the situation of this stream: the handler returned the same Message object for several requests
+            return (o[0] + ":response-object-reused-by-handler", o[1])
+        return o
+
+    def _oracle_race(self, inp, res):
+        """several datagrams per loop turn: only the order-independent part of the property — at most one hand-over per key and
+        lifetime, all ACKs sent under one key inside its lifetime byte-identical, NON requests never acknowledged, no exception"""
+        starts = {}; acks = {}
+        for n, (ev, st) in enumerate(zip(inp["events"], res["steps"])):
+            for o in st["out"]:
+                if o[0] == "exn": return ("C04:exception:" + o[1], "event %d raised %s" % (n, o[1]))
+                if o[0] == "start":
+                    k = (o[3], o[4]); prev = starts.get(k)
+                    if prev is not None and o[1] - prev < LIFETIME:
+                        return ("C04:handler-twice", "request %s mid %d passed to the application at %d and again at %d us (datagrams read in one loop turn)" % (k[0], k[1], prev, o[1]))
+                    starts[k] = o[1]; acks.pop(k, None)
+                elif o[0] == "send":
+                    ty, code, mid, tok = parse_header(bytes.fromhex(o[3]))
+                    if ty == "ACK":
+                        k = (o[2], mid)
+                        if k in acks and acks[k] != o[3]:
+                            return ("C04:dup-answer-differs", "two different ACKs under %s mid %d: %s and %s" % (k[0], mid, acks[k], o[3]))
+                        acks[k] = o[3]
+        return None
+
+    def _oracle(self, stream, inp, res):
         if "harness_exception" in res:
             return ("C04:crash:" + res["where"], "driver raised %s: %s" % (res["harness_exception"], res.get("text")))
+        if stream == "race": return self._oracle_race(inp, res)
         live = {}     # (remote, mid) -> {"t0": first arrival, "reply": hex of the last ACK/RST sent under the key since then}
         last_start = {}
-        well_behaved = stream in ("scenario", "lifetime", "enum")
+        well_behaved = stream in ("scenario", "lifetime", "enum", "refusal", "burst", "cached")
         for n, (ev, st) in enumerate(zip(inp["events"], res["steps"])):
-            out = st["out"]; t = st["t"]
+            t = st["t"]
+            out = [o for o in st["out"] if o[0] != "refused"]     # a datagram handed to a refusing transport counts as sent
             for o in out:
                 if o[0] == "exn": return ("C04:exception:" + o[1], "event %d %r raised %s" % (n, ev, o[1]))
             expect_dup = None
@@ -462,8 +629,11 @@ class C04(fw.Property):
                     elif out:
                         return ("C04:dup-non-output", "event %d: copy of %s mid %d produced output %r" % (n, ev[2], key[1], out))
                 else:
-                    live[key] = {"t0": t, "reply": None}
+                    live[key] = {"t0": t, "reply": None, "token": ev[5]}
                     if ev[2] in ("CON", "NON"):
+                        for o in out:
+                            if o[0] == "send" and o[2] != key[0]:
+                                return ("C04:fresh-output-to-other-peer", "event %d: new request from %s made the endpoint send %s to %s" % (n, key[0], o[3], o[2]))
                         if len(starts) != 1:
                             return ("C04:fresh-not-executed" if not starts else "C04:handler-twice",
                                     "event %d: request %s mid %d (new for this endpoint%s) was passed to the application %d times" %
@@ -481,6 +651,8 @@ class C04(fw.Property):
                     ty, code, mid, tok = parse_header(bytes.fromhex(o[3]))
                     g2 = live.get((o[2], mid))
                     if ty in ("ACK", "RST") and g2 is not None and o[1] <= g2["t0"] + LIFETIME:
+                        if well_behaved and ty == "ACK" and code != 0 and tok.hex() != g2["token"]:
+                            return ("C04:ack-for-other-request", "event %d: ACK %s under mid %d carries token %s, the request with that mid had token %s" % (n, o[3], mid, tok.hex(), g2["token"]))
                         g2["reply"] = o[3]
         return None
 
